@@ -15,6 +15,7 @@ import (
 	"github.com/basecomplextech/baselibrary/alloc"
 	"github.com/basecomplextech/baselibrary/bin"
 	"github.com/basecomplextech/spec/proto/pmpx"
+	"github.com/pierrec/lz4/v4"
 )
 
 const ProtocolLine = "SpecMPX/1\n"
@@ -22,6 +23,21 @@ const ProtocolLine = "SpecMPX/1\n"
 type Peer struct {
 	C net.Conn
 	R *bufio.Reader
+	// Z, ZR are set once the connection has switched to lz4 (EnableLZ4): frames are written and read through them
+	Z  *lz4.Writer
+	ZR *lz4.Reader
+}
+
+// EnableLZ4 switches both directions to lz4 frames, as the endpoints do after a handshake that negotiated it.
+func (p *Peer) EnableLZ4() error {
+	z := lz4.NewWriter(p.C)
+	if err := z.Apply(lz4.BlockSizeOption(lz4.Block256Kb)); err != nil {
+		return err
+	}
+	p.Z = z
+	// read with exact sizes only: an lz4 reader blocks until the buffer it was given is full
+	p.ZR = lz4.NewReader(p.R)
+	return nil
 }
 
 // Frame is a decoded frame as seen on the wire.
@@ -64,7 +80,19 @@ func (p *Peer) WriteFrame(msg []byte) error {
 	b := make([]byte, 4+len(msg))
 	binary.BigEndian.PutUint32(b, uint32(len(msg)))
 	copy(b[4:], msg)
-	return p.WriteRaw(b)
+	return p.WriteStream(b)
+}
+
+// WriteStream writes bytes into the (possibly compressed) frame stream.
+func (p *Peer) WriteStream(b []byte) error {
+	if p.Z == nil {
+		return p.WriteRaw(b)
+	}
+	p.C.SetWriteDeadline(time.Now().Add(tscale.D(5 * time.Second)))
+	if _, err := p.Z.Write(b); err != nil {
+		return err
+	}
+	return p.Z.Flush()
 }
 
 func (p *Peer) ReadLine(timeout time.Duration) (string, error) {
@@ -75,8 +103,12 @@ func (p *Peer) ReadLine(timeout time.Duration) (string, error) {
 // ReadFrame reads one frame; io.EOF when the other side closed.
 func (p *Peer) ReadFrame(timeout time.Duration) (Frame, error) {
 	p.C.SetReadDeadline(time.Now().Add(timeout))
+	var src io.Reader = p.R
+	if p.ZR != nil {
+		src = p.ZR
+	}
 	var head [4]byte
-	if _, err := io.ReadFull(p.R, head[:]); err != nil {
+	if _, err := io.ReadFull(src, head[:]); err != nil {
 		return Frame{}, err
 	}
 	n := binary.BigEndian.Uint32(head[:])
@@ -84,7 +116,7 @@ func (p *Peer) ReadFrame(timeout time.Duration) (Frame, error) {
 		return Frame{}, fmt.Errorf("peer: frame of %d bytes", n)
 	}
 	buf := make([]byte, n)
-	if _, err := io.ReadFull(p.R, buf); err != nil {
+	if _, err := io.ReadFull(src, buf); err != nil {
 		return Frame{}, err
 	}
 	return Decode(buf)
